@@ -51,7 +51,7 @@ def generate(rng, tier):
     tail = []
     for _ in range(rng.randint(1, 4)):
         if rng.random() < 0.3:
-            tail.append({"op": "pop", "obj": rng.randrange(n), "pos": None if rng.random() < 0.5 else rng.random()})
+            tail.append({"op": "pop", "obj": rng.randrange(n), "pos": None if rng.random() < 0.5 else rng.random(), "negative": rng.random() < 0.4})
         else:
             tail.append({"op": "delete", "obj": rng.randrange(n), "picks": [rng.random() for _ in range(rng.randint(1, 5))],
                          "container": rng.choice(["list", "ndarray", "tuple", "np.int64", "own_view", "own_view"]), "many": big and rng.random() < 0.6})
